@@ -1243,22 +1243,26 @@ func (n *MacroNode) CallMacro(w io.Writer, ctx *RenderContext, args ...interface
 		macroCtx.SetMacro(name, sibling)
 	}
 
-	// Set the parameters
+	// Work out the parameters. A default expression is evaluated before any parameter is
+	// bound, so it sees what the caller sees, plus the macros of the defining template
+	// (y=other(7) failed with "function not found" when called through an import)
+	values := make([]interface{}, len(n.params))
 	for i, param := range n.params {
 		if i < len(args) {
 			// If an argument was provided, use it
-			macroCtx.SetVariable(param, args[i])
+			values[i] = args[i]
 		} else if defaultVal, ok := n.defaults[param]; ok {
 			// Otherwise, use the default value if available
-			value, err := ctx.EvaluateExpression(defaultVal)
+			value, err := macroCtx.EvaluateExpression(defaultVal)
 			if err != nil {
 				return err
 			}
-			macroCtx.SetVariable(param, value)
-		} else {
-			// If no default, set to nil
-			macroCtx.SetVariable(param, nil)
+			values[i] = value
 		}
+		// If no default, the parameter is nil
+	}
+	for i, param := range n.params {
+		macroCtx.SetVariable(param, values[i])
 	}
 
 	// Render the macro body - we need to handle variable interpolation in TextNodes
